@@ -429,6 +429,71 @@ func TestCompoundOnPointKey(t *testing.T) {
 	evid.Exhaustive("compound assignment on a point key: value types x operators x {top level, if, for-in, for, twice}", n)
 }
 
+// TestDeepAndLongRuns: blocks nested up to 40 deep with an assignment and a read at every level, loops of up to
+// 70000 passes (a counter, an accumulator, a break in the last pass, a body-local name), loops nested 6 deep.
+func TestDeepAndLongRuns(t *testing.T) {
+	n := 0
+	inc := func(v string) *gen.Node { return gen.NSet(v, gen.NBin("+", id(v), gen.NInt(1))) }
+	for _, d := range []int{2, 8, 15, 16, 17, 31, 32, 33, 40} {
+		// level i assigns o<i> (new at that level), updates top (outer), reads everything above
+		body := []*gen.Node{gen.NCall("probe", gen.NStr("innermost"), id("top"), id("o0"), id(fmt.Sprintf("o%d", d-1)))}
+		for i := d - 1; i >= 0; i-- {
+			lvl := []*gen.Node{gen.NSet(fmt.Sprintf("o%d", i), gen.NInt(int64(i))), inc("top")}
+			var blk *gen.Node
+			switch i % 3 {
+			case 0:
+				blk = gen.NIf([]*gen.Node{gen.NBool(true)}, [][]*gen.Node{body}, nil, false)
+			case 1:
+				blk = gen.NForIn("e", gen.NList(gen.NInt(1)), body)
+			default:
+				blk = gen.NFor(gen.NSet(fmt.Sprintf("c%d", i), gen.NInt(0)), gen.NBin("<", id(fmt.Sprintf("c%d", i)), gen.NInt(1)), inc(fmt.Sprintf("c%d", i)), body)
+			}
+			lvl = append(lvl, blk, gen.NCall("probe", gen.NStr(fmt.Sprintf("after-level-%d", i)), id("top"), id(fmt.Sprintf("o%d", i)), id(fmt.Sprintf("o%d", minInt(i+1, d-1)))))
+			body = lvl
+		}
+		c := sem.NewCase(gen.FixAll(append([]*gen.Node{gen.NSet("top", gen.NInt(0))}, body...)))
+		judge(t, "deep", c, true, "deep-blocks")
+		n++
+	}
+	for _, passes := range []int64{255, 256, 257, 4095, 4096, 4097, 8193, 70000} {
+		for form := 0; form < 4; form++ {
+			var prog []*gen.Node
+			last := gen.NInt(passes - 1)
+			body := []*gen.Node{gen.NSet("acc", gen.NBin("+", id("acc"), id("i"))), gen.NIf([]*gen.Node{gen.NBin("==", id("loc"), gen.NNil())}, [][]*gen.Node{{inc("fresh")}}, nil, false), gen.NSet("loc", id("i")),
+				gen.NIf([]*gen.Node{gen.NBin("==", gen.NBin("%", id("i"), gen.NInt(1000)), gen.NInt(999))}, [][]*gen.Node{{gen.NCall("probe", gen.NStr("mark"), id("i"), id("acc"))}}, nil, false)}
+			switch form {
+			case 0:
+				prog = []*gen.Node{gen.NFor(gen.NSet("i", gen.NInt(0)), gen.NBin("<", id("i"), gen.NInt(passes)), inc("i"), body)}
+			case 1:
+				prog = []*gen.Node{gen.NSet("i", gen.NInt(-1)), gen.NFor(nil, nil, nil, append([]*gen.Node{inc("i")}, append(body, gen.NIf([]*gen.Node{gen.NBin(">=", id("i"), last)}, [][]*gen.Node{{gen.NBreak()}}, nil, false))...))}
+			case 2:
+				prog = []*gen.Node{gen.NSet("i", gen.NInt(-1)), gen.NFor(nil, gen.NBin("<", id("i"), last), nil, append([]*gen.Node{inc("i"), gen.NIf([]*gen.Node{gen.NBin("==", gen.NBin("%", id("i"), gen.NInt(2)), gen.NInt(1))}, [][]*gen.Node{{gen.NContinue()}}, nil, false)}, body...))}
+			default:
+				if passes > 9000 {
+					continue
+				}
+				// for-in over a string of that many characters
+				prog = []*gen.Node{gen.NSet("i", gen.NInt(-1)), gen.NSet("s", gen.NStr("ab")), gen.NFor(nil, gen.NBin("<", gen.NCall("len", id("s")), gen.NInt(passes)), nil, []*gen.Node{gen.NSet("s", gen.NBin("+", id("s"), id("s")))}),
+					gen.NForIn("ch", gen.NSlice(id("s"), nil, gen.NInt(passes), nil, false), append([]*gen.Node{inc("i")}, body...))}
+			}
+			prog = append([]*gen.Node{gen.NSet("acc", gen.NInt(0)), gen.NSet("fresh", gen.NInt(0))}, prog...)
+			prog = append(prog, gen.NCall("probe", gen.NStr("end"), id("i"), id("acc"), id("fresh"), id("loc")))
+			c := sem.NewCase(gen.FixAll(prog))
+			c.Fuel = 3_000_000
+			judge(t, "long", c, true, "long-loops")
+			n++
+		}
+	}
+	evid.Exhaustive("blocks nested 2..40 deep; loops of 255..70000 passes in 4 forms", n)
+}
+
+func minInt(a, b int) int {
+	if a < b {
+		return a
+	}
+	return b
+}
+
 // TestEmptyBranchTable: a truthy branch with an empty block still ends the statement.
 func TestEmptyBranchTable(t *testing.T) {
 	n := 0
